@@ -26,6 +26,14 @@ type Mutex struct {
 
 //go:norace
 func (m *Mutex) Lock() {
+	if !vsched.Active() { // plain sequential use (fixtures, sequential harnesses): no scheduler, no description strings
+		if m.held {
+			panic("vsync: Mutex.Lock would block outside a controlled execution")
+		}
+		m.held = true
+		m.hb.acquire()
+		return
+	}
 	vsched.DoObj(vsched.KLock, fmt.Sprintf("Mutex.Lock(%p)", m), m)
 	m.hb.acquire()
 }
@@ -72,6 +80,14 @@ type RWMutex struct {
 
 //go:norace
 func (m *RWMutex) Lock() {
+	if !vsched.Active() {
+		if m.writer || m.readers > 0 {
+			panic("vsync: RWMutex.Lock would block outside a controlled execution")
+		}
+		m.writer = true
+		m.hb.lock()
+		return
+	}
 	vsched.DoObj(vsched.KWLockAnnounce, fmt.Sprintf("RWMutex.Lock(%p) announce", m), m)
 	vsched.DoObj(vsched.KWLockAcquire, fmt.Sprintf("RWMutex.Lock(%p)", m), m)
 	m.hb.lock()
@@ -115,6 +131,14 @@ func (m *RWMutex) Unlock() {
 
 //go:norace
 func (m *RWMutex) RLock() {
+	if !vsched.Active() {
+		if m.writer {
+			panic("vsync: RWMutex.RLock would block outside a controlled execution")
+		}
+		m.readers++
+		m.hb.rlock()
+		return
+	}
 	vsched.DoObj(vsched.KRLock, fmt.Sprintf("RWMutex.RLock(%p)", m), m)
 	m.hb.rlock()
 }
